@@ -501,10 +501,11 @@ rw [t1, t2, t3, t4]
 # ---- basis change and back: Z (Z^-1 X Z) Z^-1 = X -------------------------------------------------------------------------
 _N2 = "(range(0, N), range(0, N))"
 lemma("similarity_roundtrip",
-      types={"N": "int", "Z": "carr2", "Zi": "carr2", "X": "carr2", "Y": "carr2", "W": "carr2"},
-      hyps=[("hZZi", "forall((i, j), %s, Sum(k, range(0, N), Z[i,k]*Zi[k,j]) == ite(i == j, 1, 0))" % _N2),
-            ("hY", "forall((i, j), %s, Y[i,j] == Sum(k, range(0, N), Zi[i,k]*Sum(l, range(0, N), X[k,l]*Z[l,j])))" % _N2),
-            ("hW", "forall((i, j), %s, W[i,j] == Sum(k, range(0, N), Z[i,k]*Sum(l, range(0, N), Y[k,l]*Zi[l,j])))" % _N2)],
+      types={"N": "int", "A": "carr2", "Ai": "carr2", "B": "carr2", "Bi": "carr2", "X": "carr2", "Y": "carr2", "W": "carr2"},
+      hyps=[("hBAi", "forall((i, j), %s, Sum(k, range(0, N), B[i,k]*Ai[k,j]) == ite(i == j, 1, 0))" % _N2),
+            ("hABi", "forall((i, j), %s, Sum(k, range(0, N), A[i,k]*Bi[k,j]) == ite(i == j, 1, 0))" % _N2),
+            ("hY", "forall((i, j), %s, Y[i,j] == Sum(k, range(0, N), Ai[i,k]*Sum(l, range(0, N), X[k,l]*A[l,j])))" % _N2),
+            ("hW", "forall((i, j), %s, W[i,j] == Sum(k, range(0, N), B[i,k]*Sum(l, range(0, N), Y[k,l]*Bi[l,j])))" % _N2)],
       concl="forall((i, j), %s, W[i,j] == X[i,j])" % _N2,
       proof=r"""
 intro i j hi0 hiN hj0 hjN
@@ -512,9 +513,9 @@ have hi : i ∈ Finset.Ico (0:ℤ) N := Finset.mem_Ico.mpr ⟨hi0, hiN⟩
 have hj : j ∈ Finset.Ico (0:ℤ) N := Finset.mem_Ico.mpr ⟨hj0, hjN⟩
 rw [hW i j hi0 hiN hj0 hjN]
 -- substitute Y and distribute everything into a four-fold sum
-have e1 : ∑ k ∈ Finset.Ico (0:ℤ) N, Z i k * ∑ l ∈ Finset.Ico (0:ℤ) N, Y k l * Zi l j
+have e1 : ∑ k ∈ Finset.Ico (0:ℤ) N, B i k * ∑ l ∈ Finset.Ico (0:ℤ) N, Y k l * Bi l j
     = ∑ k ∈ Finset.Ico (0:ℤ) N, ∑ l ∈ Finset.Ico (0:ℤ) N, ∑ p ∈ Finset.Ico (0:ℤ) N, ∑ q ∈ Finset.Ico (0:ℤ) N,
-        Z i k * Zi k p * X p q * (Z q l * Zi l j) := by
+        B i k * Ai k p * X p q * (A q l * Bi l j) := by
   apply Finset.sum_congr rfl; intro k hk
   have hk' := Finset.mem_Ico.mp hk
   rw [Finset.mul_sum]
@@ -528,22 +529,22 @@ have e1 : ∑ k ∈ Finset.Ico (0:ℤ) N, Z i k * ∑ l ∈ Finset.Ico (0:ℤ) N
 rw [e1]
 -- reorder: k l p q  ->  p q k l
 have e2 : ∑ k ∈ Finset.Ico (0:ℤ) N, ∑ l ∈ Finset.Ico (0:ℤ) N, ∑ p ∈ Finset.Ico (0:ℤ) N, ∑ q ∈ Finset.Ico (0:ℤ) N,
-        Z i k * Zi k p * X p q * (Z q l * Zi l j)
+        B i k * Ai k p * X p q * (A q l * Bi l j)
     = ∑ p ∈ Finset.Ico (0:ℤ) N, ∑ q ∈ Finset.Ico (0:ℤ) N,
-        (∑ k ∈ Finset.Ico (0:ℤ) N, Z i k * Zi k p) * X p q * (∑ l ∈ Finset.Ico (0:ℤ) N, Z q l * Zi l j) := by
+        (∑ k ∈ Finset.Ico (0:ℤ) N, B i k * Ai k p) * X p q * (∑ l ∈ Finset.Ico (0:ℤ) N, A q l * Bi l j) := by
   calc ∑ k ∈ Finset.Ico (0:ℤ) N, ∑ l ∈ Finset.Ico (0:ℤ) N, ∑ p ∈ Finset.Ico (0:ℤ) N, ∑ q ∈ Finset.Ico (0:ℤ) N,
-          Z i k * Zi k p * X p q * (Z q l * Zi l j)
+          B i k * Ai k p * X p q * (A q l * Bi l j)
       = ∑ k ∈ Finset.Ico (0:ℤ) N, ∑ p ∈ Finset.Ico (0:ℤ) N, ∑ l ∈ Finset.Ico (0:ℤ) N, ∑ q ∈ Finset.Ico (0:ℤ) N,
-          Z i k * Zi k p * X p q * (Z q l * Zi l j) := by
+          B i k * Ai k p * X p q * (A q l * Bi l j) := by
         apply Finset.sum_congr rfl; intro k _; exact Finset.sum_comm
     _ = ∑ p ∈ Finset.Ico (0:ℤ) N, ∑ k ∈ Finset.Ico (0:ℤ) N, ∑ l ∈ Finset.Ico (0:ℤ) N, ∑ q ∈ Finset.Ico (0:ℤ) N,
-          Z i k * Zi k p * X p q * (Z q l * Zi l j) := Finset.sum_comm
+          B i k * Ai k p * X p q * (A q l * Bi l j) := Finset.sum_comm
     _ = ∑ p ∈ Finset.Ico (0:ℤ) N, ∑ k ∈ Finset.Ico (0:ℤ) N, ∑ q ∈ Finset.Ico (0:ℤ) N, ∑ l ∈ Finset.Ico (0:ℤ) N,
-          Z i k * Zi k p * X p q * (Z q l * Zi l j) := by
+          B i k * Ai k p * X p q * (A q l * Bi l j) := by
         apply Finset.sum_congr rfl; intro p _
         apply Finset.sum_congr rfl; intro k _; exact Finset.sum_comm
     _ = ∑ p ∈ Finset.Ico (0:ℤ) N, ∑ q ∈ Finset.Ico (0:ℤ) N, ∑ k ∈ Finset.Ico (0:ℤ) N, ∑ l ∈ Finset.Ico (0:ℤ) N,
-          Z i k * Zi k p * X p q * (Z q l * Zi l j) := by
+          B i k * Ai k p * X p q * (A q l * Bi l j) := by
         apply Finset.sum_congr rfl; intro p _; exact Finset.sum_comm
     _ = _ := by
         apply Finset.sum_congr rfl; intro p _
@@ -553,14 +554,14 @@ have e2 : ∑ k ∈ Finset.Ico (0:ℤ) N, ∑ l ∈ Finset.Ico (0:ℤ) N, ∑ p 
         rw [Finset.mul_sum]
 rw [e2]
 have e3 : ∑ p ∈ Finset.Ico (0:ℤ) N, ∑ q ∈ Finset.Ico (0:ℤ) N,
-        (∑ k ∈ Finset.Ico (0:ℤ) N, Z i k * Zi k p) * X p q * (∑ l ∈ Finset.Ico (0:ℤ) N, Z q l * Zi l j)
+        (∑ k ∈ Finset.Ico (0:ℤ) N, B i k * Ai k p) * X p q * (∑ l ∈ Finset.Ico (0:ℤ) N, A q l * Bi l j)
     = ∑ p ∈ Finset.Ico (0:ℤ) N, ∑ q ∈ Finset.Ico (0:ℤ) N,
         (if i = p then (1:ℂ) else 0) * X p q * (if q = j then (1:ℂ) else 0) := by
   apply Finset.sum_congr rfl; intro p hp
   have hp' := Finset.mem_Ico.mp hp
   apply Finset.sum_congr rfl; intro q hq
   have hq' := Finset.mem_Ico.mp hq
-  rw [hZZi i p hi0 hiN hp'.1 hp'.2, hZZi q j hq'.1 hq'.2 hj0 hjN]
+  rw [hBAi i p hi0 hiN hp'.1 hp'.2, hABi q j hq'.1 hq'.2 hj0 hjN]
 rw [e3]
 simp only [ite_mul, one_mul, zero_mul, mul_ite, mul_one, mul_zero]
 simp only [Finset.sum_ite_eq', Finset.sum_ite_eq, hi, hj, if_true]
